@@ -409,6 +409,12 @@ func (s *Sim) Learn(st *Step) {
 	}
 	for _, ch := range rec.Diff() {
 		if (ch.Field == "TOTPSecretKey" || ch.Field == "SMSPhone") && ch.New != "" {
+			if rec.FaultsFired > 0 && rec.SessOut["twofactor_authed"] == "true" {
+				// a failure was injected into this request after the enrolment had been saved, and the
+				// response (with it the session changes) was never delivered: what the session owes then
+				// is not something the property speaks about — no demand, follow the library
+				continue
+			}
 			bs.EVAuthed = false
 		}
 	}
